@@ -16,9 +16,9 @@ import (
 func init() {
 	core.Register(&core.Prop{
 		ID: "C15",
-		Rule: "case = one base geometry of one of the eight types (5% of the multi-part bases have 60..140 members, 12% store one member two or three times as exact copies; members in distinct cells, distinct vertices >= 200 tol apart, every ring closed with a unique smallest-X anchor vertex) and ~40 derived partners with a truth value known by construction: positives = every coordinate perturbed by < 0.9 tol, combined with member/ring/item permutations and ring-start rotations; negatives = other type (all 56 ordered type pairs), member inserted/deleted (also empty members), a ring moved from one polygon of a multi-polygon to a sibling, vertex inserted/deleted, line string reversed, one vertex displaced by 1.5-100 tol; every pair is evaluated in both directions (symmetry), plus unrelated random pairs; " +
+		Rule: "case = one base geometry of one of the eight types (5% of the multi-part bases have 60..140 members, 12% store one member two or three times as exact copies; members in distinct cells, distinct vertices >= 200 tol apart, every ring closed; in 30% of the cases rings have two vertices tied for the smallest X - an axis-parallel left edge) and ~40 derived partners with a truth value known by construction: positives = every coordinate perturbed by < 0.9 tol, combined with member/ring/item permutations and ring-start rotations; negatives = other type (all 56 ordered type pairs), member inserted/deleted (also empty members), a ring moved from one polygon of a multi-polygon to a sibling, vertex inserted/deleted, line string reversed, one vertex displaced by 1.5-100 tol; every pair is evaluated in both directions (symmetry), plus unrelated random pairs; " +
 			"an evaluation is one ordered Similar call judged; non-trivial = derived pair (distinct by hash of both geometries)",
-		Assumptions: []string{"distinct members separated by >> tol so that matching is unambiguous (as the property states)", "rings are closed; the anchor (smallest X) is unique by >= 200 tol so that a legal perturbation cannot move it"},
+		Assumptions: []string{"distinct members separated by >> tol so that matching is unambiguous (as the property states)", "rings are closed"},
 		Phases: []core.Phase{{Name: "pairs", NumCases: func(t string) int {
 			if t == "thorough" {
 				return 300000
@@ -28,7 +28,7 @@ func init() {
 		Run: run,
 		Floors: func(t string) map[string]int64 {
 			m := map[string]int64{"pos.perturbed": 5000, "pos.permuted": 2000, "pos.ring_rotated": 1000, "neg.type": 5000, "neg.member_inserted": 1000, "neg.member_deleted": 1000, "neg.vertex_inserted": 1000,
-				"neg.vertex_deleted": 1000, "neg.reversed": 300, "neg.displaced": 2000, "unrelated": 1000, "base.many_members_60_to_140": 100, "base.with_duplicate_member": 300, "neg.ring_moved_to_sibling_polygon": 300, "base.coordinate_spacing_comparable_to_tol": 300}
+				"neg.vertex_deleted": 1000, "neg.reversed": 300, "neg.displaced": 2000, "unrelated": 1000, "base.many_members_60_to_140": 100, "base.with_duplicate_member": 300, "neg.ring_moved_to_sibling_polygon": 300, "base.coordinate_spacing_comparable_to_tol": 300, "base.ring_with_tied_leftmost_vertices": 500}
 			for _, n := range typeNames {
 				m["base."+n] = 100
 			}
@@ -44,6 +44,7 @@ type builder struct {
 	tol  float64
 	cell int // next free cell
 	many bool // top-level multi-geometries get 60..140 members (sizes on both sides of 64 and 128)
+	tiedAnchor, sawTie bool // rings may have several vertices with the smallest X (axis-parallel left edges)
 	off  float64 // added to every coordinate: 1e15 .. 9e15 tol puts the float64 spacing at 0.1 .. 1 tol
 }
 
@@ -116,7 +117,26 @@ func (b *builder) ring() geom.Path {
 				cnt++
 			}
 		}
-		if cnt == 1 {
+		if cnt == 1 && b.tiedAnchor && b.r.Chance(0.7) {
+			// give a second vertex the smallest X as well (an axis-parallel left edge), provided
+			// it stays distinct from all the others
+			j := b.r.Intn(len(p))
+			q := geom.Point{X: minx, Y: p[j].Y}
+			ok := p[j].X != minx
+			for k, o := range p {
+				if k != j && o == q {
+					ok = false
+				}
+			}
+			if ok {
+				p[j] = q
+				cnt = 2
+			}
+		}
+		if cnt == 1 || b.tiedAnchor {
+			if cnt > 1 {
+				b.sawTie = true
+			}
 			return append(geom.Path(p), p[0])
 		}
 		b.cell = save
@@ -502,6 +522,7 @@ func run(c *core.Ctx, idx int) {
 	tol := []float64{1e-9, 1e-6, 1e-3, 1, 7.5, 1e3}[r.Intn(6)] * r.Range(0.5, 2)
 	b := &builder{r: r, tol: tol}
 	kind := r.Intn(8)
+	b.tiedAnchor = r.Chance(0.3)
 	if r.Chance(0.1) {
 		// far from the origin relative to the tolerance: the float64 spacing of the coordinates is
 		// 0.1 .. 1 tol (a tolerance of a nanometre at UTM coordinates); perturbations and
@@ -522,6 +543,9 @@ func run(c *core.Ctx, idx int) {
 			g = d
 			c.Count("base.with_duplicate_member")
 		}
+	}
+	if b.sawTie {
+		c.Count("base.ring_with_tied_leftmost_vertices")
 	}
 	c.Count("base." + tname(g))
 	if c.WantSample() && kind >= 3 {
